@@ -98,6 +98,7 @@ type Exec struct {
 	pcVars         *big.Int
 	pcVarsN        int
 	initSkipped    int
+	ctxErrs        map[string]Value
 }
 
 type NdInput struct {
@@ -1194,6 +1195,9 @@ func (x *Exec) valEq(a, b Value) *Term {
 		return x.ctx.Bool(b == nil && av == nil)
 	case *Closure:
 		return x.ctx.Bool(false)
+	case *BoundMethod:
+		// only comparison with nil is legal for func values
+		return x.ctx.Bool(av == nil && b == nil)
 	}
 	panic(x.unsupported(fmt.Sprintf("equality on %T", a)))
 }
